@@ -13,6 +13,10 @@ type ingredient struct {
 	Src  string
 	// Go runs before Src on the runtime (bridged values).
 	Go func(vm *otto.Otto)
+	// Solo ingredients (rebound global special bindings, bridged Go containers and
+	// functions) are explored alone in the quick tier and alone or paired with one
+	// non-Solo ingredient in the thorough tier; a history never holds two of them.
+	Solo bool
 }
 
 // BridgedT is the bridged Go struct of ingredient "bridged". The original and its
@@ -312,6 +316,72 @@ __probe("degenerate.empties", function () {
   return [Object.keys(emO).length, emA.length, emF.length, emN.length, 0 in emN, k.length, emNE.hidden, emWith(), emB0(5), emArgs0.length, 0 in emArgs0,
     emArgsF.args.length, emArgsF.get(), Object.getPrototypeOf(emNullP) === null].join();
 });`},
+
+	// ---- Solo ingredients -------------------------------------------------------------
+	// Global special bindings rebound / deleted / turned into accessors before Copy.
+	{Name: "evalrebound", Solo: true, Src: `
+var erE = eval; eval = parseInt;
+__probe("evalrebound.direct", function () { return (function () { var y = 2; try { return String(eval("y")); } catch (e) { return "E:" + e.name; } })(); });
+__probe("evalrebound.saved", function () { return (function () { var y = 2; try { return String(erE("typeof y")); } catch (e) { return "E:" + e.name; } })(); });`},
+
+	{Name: "evaluser", Solo: true, Src: `
+var euE = eval; eval = function (s) { return "mine:" + s; };
+__probe("evaluser.direct", function () { return (function () { var y = 2; try { return String(eval("y")); } catch (e) { return "E:" + e.name; } })(); });`},
+
+	{Name: "evalnum", Solo: true, Src: `
+var enE = eval; eval = 1;
+__probe("evalnum.state", function () { return [typeof eval, typeof enE, enE("1+1")].join(); });`},
+
+	{Name: "evaldel", Solo: true, Src: `
+var edE = eval; var edR = delete eval;
+__probe("evaldel.state", function () { return [edR, typeof eval, typeof edE, edE("1+1")].join(); });`},
+
+	{Name: "evalacc", Solo: true, Src: `
+var eaE = eval;
+Object.defineProperty(this, "eval", { get: function () { return eaE; }, configurable: true });
+__probe("evalacc.direct", function () { return (function () { var y = 2; try { return String(eval("y")); } catch (e) { return "E:" + e.name; } })(); });`},
+
+	{Name: "specials", Solo: true, Src: `
+var spSaved = { F: Function, A: Array, O: Object, c: console };
+Function = function () { return "F2"; };
+Array = function () { return "A2"; };
+Object = (function () {
+  function O2(v) { return spSaved.O(v); }
+  var ns = spSaved.O.getOwnPropertyNames(spSaved.O), skip = { prototype: 1, length: 1, name: 1, caller: 1, arguments: 1 };
+  for (var i = 0; i < ns.length; i++) { if (!skip[ns[i]]) { O2[ns[i]] = spSaved.O[ns[i]]; } }
+  O2.prototype = spSaved.O.prototype;
+  return O2;
+})();
+console = { log: "nolog" };
+undefined = 1; NaN = 2; Infinity = 3;
+var spTry = [typeof undefined, NaN !== NaN, 1 / Infinity].join("/");
+__probe("specials.state", function () {
+  return [Function(), Array(), typeof Object.keys, Object.keys({ k: 1 }).join(), typeof console.log, typeof undefined, NaN !== NaN, 1 / Infinity,
+    [].constructor === spSaved.A, (function () {}).constructor === spSaved.F, ({}).constructor === spSaved.O, spTry].join();
+});`},
+
+	// Bridged Go values of the remaining kinds. The Go value itself (backing array, map) is
+	// necessarily common to the original and its copies; everything otto owns about it is
+	// not: the wrapper object's own properties and runtime, the slice length otto keeps for
+	// a slice handed over by value, and the heap in which a bridged Go function builds its
+	// results and errors. Mutations never write elements through the bridge.
+	{Name: "goslice", Solo: true, Go: func(vm *otto.Otto) { vm.Set("gsl", []int{1, 2, 3}) }, Src: `
+var gslHolder = { ref: gsl };
+__probe("goslice.read", function () { return [gsl.length, gsl[0], gsl[2], gslHolder.ref === gsl, Object.getPrototypeOf(gsl) === Array.prototype].join(); });`},
+
+	{Name: "gomap", Solo: true, Go: func(vm *otto.Otto) { vm.Set("gm", map[string]int{"a": 1}) }, Src: `
+var gmHolder = { ref: gm };
+__probe("gomap.read", function () { return [gm.a, typeof gm.zz, gmHolder.ref === gm, Object.getPrototypeOf(gm) === Object.prototype].join(); });`},
+
+	{Name: "gofunc", Solo: true, Go: func(vm *otto.Otto) {
+		vm.Set("gmk", func() []int { return []int{1, 2} })
+		vm.Set("gmkm", func() map[string]int { return map[string]int{"a": 1} })
+		vm.Set("gconv", func(n int) int { return n * 2 })
+		vm.Set("geach", func(cb func(int) int) int { return cb(1) + cb(2) })
+	}, Src: `
+__probe("gofunc.results", function () { return [Object.getPrototypeOf(gmk()) === Array.prototype, gmk() instanceof Array, Object.getPrototypeOf(gmkm()) === Object.prototype, gmk().join("-"), gconv(4)].join(); });
+__probe("gofunc.callback", function () { return geach(function (x) { return x * 3; }); });
+__probe("gofunc.error", function () { try { gconv({}); return "no error"; } catch (e) { return [e instanceof TypeError, e instanceof Error, Object.getPrototypeOf(e) === TypeError.prototype].join(); } });`},
 }
 
 // mutation is one mutation program M. Needs names the ingredient whose heap it
@@ -391,5 +461,19 @@ var mutations = []mutation{
 	{Name: "degenerate.rewrite", Needs: "degenerate", Src: `vk.u = 0; vk.n = undefined; vk.nan = null; vk.nz = 0; vk.es = "x"; vkArr[3] = 0; vkArr[0] = -0; delete vk.f; vk.arr.push(undefined); vk.so.p = vk.no; 1 / vk.nz`},
 	{Name: "degenerate.fill", Needs: "degenerate", Src: `emO.a = 1; emA.push(1); emF.p = 1; emNE.hidden = 2; emNE.vis = 1; emArgs0[0] = "z"; emArgsF.args[0] = "q"; emNullP.k = 1; emN[1] = 1; emZ = 0; [emB0(6), emArgsF.get(), emWith(), emArgs0.length].join()`},
 	{Name: "degenerate.lock", Needs: "degenerate", Src: `Object.freeze(emO); Object.preventExtensions(emA); Object.seal(emNullP); emO.x = 1; emNullP.y = 1; [Object.isFrozen(emO), Object.isExtensible(emA), "x" in emO].join()`},
+	{Name: "evalrebound.restore", Needs: "evalrebound", Src: `eval = erE; (function () { var y = 2; return eval("y"); })()`},
+	{Name: "evalrebound.use", Needs: "evalrebound", Src: `[eval("12px"), (function () { var y = 3; return erE("typeof y"); })()].join()`},
+	{Name: "evaluser.restore", Needs: "evaluser", Src: `eval = euE; (function () { var y = 2; return eval("y"); })()`},
+	{Name: "evalnum.restore", Needs: "evalnum", Src: `eval = enE; (function () { var y = 2; return eval("y"); })()`},
+	{Name: "evaldel.restore", Needs: "evaldel", Src: `eval = edE; (function () { var y = 2; return eval("y"); })()`},
+	{Name: "evalacc.use", Needs: "evalacc", Src: `(function () { var y = 2; return eval("y"); })()`},
+	{Name: "evalacc.restore", Needs: "evalacc", Src: `Object.defineProperty(this, "eval", { value: eaE, writable: true, configurable: true }); (function () { var y = 2; return eval("y"); })()`},
+	{Name: "specials.restore", Needs: "specials", Src: `Function = spSaved.F; Array = spSaved.A; Object = spSaved.O; console = spSaved.c; [new Function("return 7")(), new Array(3).length, Object.keys({ a: 1 }).join(), typeof console.log].join()`},
+	{Name: "specials.use", Needs: "specials", Src: `Array.prototype.viaNew = 1; [Function(), Array(1, 2), [] instanceof Array, [] instanceof spSaved.A, new spSaved.F("a", "return a + 1")(1), typeof [].viaNew, Object.keys(Object).length > 5].join()`},
+	{Name: "goslice.length", Needs: "goslice", Src: `gsl.length = 1; gsl.length`},
+	{Name: "goslice.rebind", Needs: "goslice", Src: `gslHolder.ref = null; var gslN = gsl.length; gsl = undefined; gslN`},
+	{Name: "gomap.rebind", Needs: "gomap", Src: `gmHolder.ref = null; var gmN = gm.a; gm = undefined; gmN`},
+	{Name: "gofunc.leak", Needs: "gofunc", Src: `Object.defineProperty(Object.getPrototypeOf(gmk()), "leak", { value: "x", configurable: true }); Object.defineProperty(Object.getPrototypeOf(gmkm()), "leakm", { value: "y", configurable: true }); [typeof Array.prototype.leak, typeof Object.prototype.leakm].join()`},
+	{Name: "gofunc.rebind", Needs: "gofunc", Src: `var gmkOld = gmk; gmk = function () { return [9]; }; [gmk().length, gmkOld().length, geach(function (x) { return x; })].join()`},
 	{Name: "bridged.rebind", Needs: "bridged", Src: `gsHolder.ref = null; gs = 1; typeof gs`},
 }
